@@ -30,12 +30,15 @@ theorem C10_post_accept_implies_policy_signed (hmac : Bytes → Bytes → Bytes)
   obtain ⟨policy, sig, c, d, secret, hc, h1, _, _, hs⟩ := (post_accept_iff hmac look fields ak region service).mp h
   exact ⟨policy, sig, d, secret, hc.hasPolicy, hc.hasSignature, h1 ▸ hc.knownKey, hs⟩
 
-/-- FULL statement "the scope is the one of `x-amz-credential`": false on the unchanged tree — the date of the
-    credential is only syntax-checked (`Findings.C05.post_credential_date_ignored`) -/
-def C10_post_scope_is_credential_scope_full : Prop :=
-  ∀ (hmac : Bytes → Bytes → Bytes) (look : Bytes → Option Bytes) (fields : List (Bytes × Bytes)) (ak region service : Bytes),
-    v4CheckPostSignature hmac (some look) fields = .accept ak region service →
-      ∃ policy sig c d secret, PostChecks look fields policy sig c d secret ∧ c.date = d.fmtDate
+/-- the scope under which the policy is signed is the scope of `x-amz-credential`: the code refuses a form whose
+    credential names another day than `x-amz-date` (4011296) -/
+theorem C10_post_scope_is_credential_scope (hmac : Bytes → Bytes → Bytes) (look : Bytes → Option Bytes)
+    (fields : List (Bytes × Bytes)) (ak region service : Bytes)
+    (h : v4CheckPostSignature hmac (some look) fields = .accept ak region service) :
+    ∃ policy sig c d secret, PostChecks look fields policy sig c d secret ∧ c.date = d.fmtDate ∧
+      sig = SigV4Spec.postSignature hmac secret ⟨c.date, region, service⟩ policy := by
+  obtain ⟨policy, sig, c, d, secret, hc, _, _, _, hs⟩ := (post_accept_iff hmac look fields ak region service).mp h
+  exact ⟨policy, sig, c, d, secret, hc, hc.scopeDate, by rw [hc.scopeDate]; exact hs⟩
 
 /-- without an authentication provider nothing is accepted -/
 theorem C10_post_no_provider (hmac : Bytes → Bytes → Bytes) (fields : List (Bytes × Bytes)) :
